@@ -342,3 +342,110 @@ def origin_of_line(report, line):
 if __name__ == "__main__":
     rep = build_unit(sys.argv[1], sys.argv[2], sys.argv[3])
     print(json.dumps({k: v for k, v in rep.items() if k != "linemap"}, indent=1))
+
+
+# ---------------------------------------------------------------------------------------------------------------
+# Lint: annotations must not smuggle executable code.  After removing ghost-only constructs, what is left of an
+# annotation must be one of a few shapes that cannot change what the real code computes.
+def _strip_balanced(toks, i):
+    depth = 0
+    j = i
+    while j < len(toks):
+        if toks[j] in ("(", "[", "{"):
+            depth += 1
+        elif toks[j] in (")", "]", "}"):
+            depth -= 1
+            if depth == 0:
+                return j + 1
+        j += 1
+    return len(toks)
+
+
+def lint_annotation(text):
+    """returns None if harmless, else a description"""
+    t = [x.text for x in tokenize(text, keep_comments=False)]
+    if not t:
+        return None
+    HEADER = {"requires", "ensures", "decreases", "invariant", "invariant_except_break", "recommends", "returns"}
+    # named return wrapper pieces
+    if len(t) >= 3 and t[0] == "(" and t[2] == ":" and len(t) == 3:
+        return None
+    if t[0] == ")":
+        t = t[1:]
+        if not t:
+            return None
+        if t[0] not in HEADER:
+            return "text after named return is not a contract clause: " + " ".join(t[:8])
+        return None
+    if t[0] in HEADER:
+        return None
+    if t[0] == "#" and len(t) > 1 and t[1] == "[":
+        j = _strip_balanced(t, 1)
+        return None if j == len(t) else lint_annotation(" ".join(t[j:]))
+    if t == ["iter", ":"]:
+        return None
+    if t[0] == ":" and "=" not in t and ";" not in t:
+        return None  # type ascription
+    # statement-level: strip ghost-only statements
+    i = 0
+    rest = []
+    while i < len(t):
+        if t[i] == "proof" and i + 1 < len(t) and t[i + 1] == "{":
+            i = _strip_balanced(t, i + 1)
+            continue
+        if t[i] == "let" and i + 1 < len(t) and t[i + 1] in ("ghost", "tracked"):
+            # to the terminating ';' at depth 0
+            d = 0
+            j = i
+            while j < len(t):
+                if t[j] in ("(", "[", "{"):
+                    d += 1
+                elif t[j] in (")", "]", "}"):
+                    d -= 1
+                elif t[j] == ";" and d == 0:
+                    break
+                j += 1
+            i = j + 1
+            continue
+        if t[i] == "assert":
+            d = 0
+            j = i
+            while j < len(t):
+                if t[j] in ("(", "[", "{"):
+                    d += 1
+                elif t[j] in (")", "]", "}"):
+                    d -= 1
+                    if d == 0 and t[j] == "}" :
+                        j += 1
+                        break
+                elif t[j] == ";" and d == 0:
+                    j += 1
+                    break
+                j += 1
+            i = j
+            continue
+        rest.append(t[i])
+        i += 1
+    if not rest:
+        return None
+    # binding of the real expression that follows:  `let r =`  ...real...  `; [proof {..}] r`
+    if len(rest) == 3 and rest[0] == "let" and rest[2] == "=":
+        return None
+    if len(rest) == 2 and rest[0] == ";":
+        return None
+    if rest == [";"]:
+        return None
+    return "executable text in annotation: " + " ".join(rest[:12])
+
+
+def lint_overlay(path):
+    out = []
+    for b in parse_overlay(path):
+        if b["kind"] != "item":
+            continue
+        for tk in tokenize(b["text"], keep_comments=True):
+            if is_ann(tk):
+                r = lint_annotation(ann_text(tk))
+                if r:
+                    out.append((b["key"], r))
+    return out
